@@ -60,13 +60,19 @@ func NewMemoryCache[MetadataT any](cfg *config.Config, memoryBudgetPercent int, 
 		byteSize:     atomics.NewInt64(0),
 	}
 
-	c.subs.Add(cfg.Cache.MaxCacheSize.OnChange(func(newSize bytesize.ByteSize) {
-		c.maxCacheSize.Set(newSize.Bytes())
-	}))
-
-	c.subs.Add(cfg.Cache.Memory.MemoryBudgetPercent.OnChange(func(newPercent int) {
+	// Change notifications are delivered asynchronously, so those of two quick changes can arrive
+	// in either order. The handlers therefore follow the current setting, read under the lock,
+	// instead of the value a particular notification carries.
+	c.subs.Add(cfg.Cache.MaxCacheSize.OnChange(func(bytesize.ByteSize) {
 		c.mu.Lock()
 		defer c.mu.Unlock()
+		c.maxCacheSize.Set(cfg.Cache.MaxCacheSize.Read().Bytes())
+	}))
+
+	c.subs.Add(cfg.Cache.Memory.MemoryBudgetPercent.OnChange(func(int) {
+		c.mu.Lock()
+		defer c.mu.Unlock()
+		newPercent := cfg.Cache.Memory.MemoryBudgetPercent.Read()
 		c.memoryCap = int64(sysMem.Total) * int64(newPercent) / 100
 		slog.Info("Memory budget changed", "new_percent", newPercent, "new_cap", bytesize.ByteSize(c.memoryCap))
 	}))
